@@ -493,8 +493,13 @@ func verifRpcAdmSeq(limit int, buf int, ops []string) string {
 			return fmt.Sprintf("ACCOUNTING-MISMATCH cur=%d", cur)
 		}
 		for i := 0; i < k; i++ {
-			if err := <-waiting[i].ch; err != nil {
-				return "WOKEN-WITH-ERROR"
+			select {
+			case err := <-waiting[i].ch:
+				if err != nil {
+					return "WOKEN-WITH-ERROR"
+				}
+			case <-time.After(3 * time.Second):
+				return "WOKEN-TIMEOUT"
 			}
 			held[waiting[i].id] = waiting[i].taken
 		}
